@@ -7,7 +7,8 @@ Local Open Scope list_scope.
 
 Record round := mkRound { r_cache : cache; r_events : list ev; r_result : sync_result;
                           r_queue : list (string * string * Z);   (* op, key, delay in ms *)
-                          r_key : string }.
+                          r_key : string;
+                          r_cache_mutated : string }.   (* "" or which cached object a sync changed *)
 Record ccase := mkCase { c_cfg : ccfg; c_rounds : list round;
                          c_final : list json;        (* the store after the last round *)
                          c_flags : list string }.    (* scenario features *)
@@ -21,7 +22,7 @@ Definition call_key (c : call) : string :=
                ++ " " ++ q_res q ++ " " ++ q_ns q ++ "/" ++ q_name q)%string
   | CHook HSync _ => "hook sync"
   | CHook HFinalize _ => "hook finalize"
-  | CHook HCustomize _ => "note"
+  | CHook HCustomize _ => "hook customize"
   end.
 
 (* the names inside a ControllerRevision are appended while ranging over Go maps: compared as sets *)
@@ -95,7 +96,8 @@ Fixpoint nth_answer (key : string) (n : nat) (log : list ev) : option answer :=
 Definition count_key (key : string) (hist : list (call * answer)) : nat :=
   List.length (filter (fun p => String.eqb (call_key (fst p)) key) hist).
 
-Definition is_note (c : call) : bool := match c with CHook HCustomize _ => true | _ => false end.
+Definition is_note (c : call) : bool :=
+  match c with CHook HCustomize (JObj (("note", _) :: _)) => true | _ => false end.
 
 (* hook calls of one sync run in parallel (one per live revision): answers are matched by request content *)
 Fixpoint nth_answer_eq (c : call) (n : nat) (log : list ev) : option answer :=
@@ -585,3 +587,22 @@ Definition C09_round (c : ccfg) (r : round) : option string :=
 Definition C07_check := check_with (fun c r =>
   orelse (C07_round c r) (orelse (C07_condition c r) (C08_no_wait_on_healthy c r))) proj_all true.
 Definition C09_check := check_with C09_round proj_all true.
+
+(* C17: the shared caches are read-only; the hook sees what the cache holds *)
+Definition C17_round (c : ccfg) (r : round) : option string :=
+  if negb (String.eqb (r_cache_mutated r) "") then Some ("shared-cache-mutated-" ++ r_cache_mutated r)%string else
+  match k_parent (r_cache r), hook_events (r_events r) with
+  | Some p, _ :: _ =>
+      (* unless the finalizer step rewrote it, one hook call (the latest revision's) carries the cached parent *)
+      if existsb (fun e' => match is_api e' with Some q => targets_parent c p q && verb_eqb (q_verb q) VUpdate && accepted e' | None => false end)
+                 (before_hook (r_events r))
+      then None
+      else if existsb (fun e => match e_call e with
+                                | CHook _ body =>
+                                    let sent := jget "parent" (obj_map body) in
+                                    jeqb sent p || existsb (fun e' => match e_ans e' with AObj o => jeqb o sent | _ => false end) (before_hook (r_events r))
+                                | _ => false end) (hook_events (r_events r))
+           then None else Some "hook-parent-not-from-cache-or-live-read"
+  | _, _ => None
+  end.
+Definition C17_check := check_with C17_round proj_all true.
